@@ -36,6 +36,7 @@ import (
 	"net"
 	"os"
 	"os/exec"
+	"path/filepath"
 	"runtime"
 	"sort"
 	"strconv"
@@ -1153,9 +1154,13 @@ func vServe() int {
 }
 
 type vRealReq struct {
-	class     string // accept refuse backlog reset unix-ok unix-missing unix-refuse unix-backlog
+	class string // accept refuse backlog reset unix-ok unix-missing unix-refuse unix-backlog
+	//                  with api=laddr (a local address is given; the failures happen BEFORE connect(2)):
+	//                  laddr-ok (free local address) bind-inuse (local port taken) bind-notlocal (address not on this
+	//                  host: EADDRNOTAVAIL, retried by dialTCP) family-raddr / family-laddr (tcp4 with an IPv6 remote /
+	//                  local address) unix-laddr-ok unix-bind-exists (local path exists)
 	net       string // tcp4 tcp6 host unix
-	api       string // dial (DialConnection) | ctx (DialTCP with a cancelled context)
+	api       string // dial (DialConnection) | ctx (DialTCP with a cancelled context) | laddr (DialTCP / DialUnix with a local address)
 	timeoutUs int    // dial timeout; for api=ctx the cancellation delay
 	conc      int
 	n         int // dials per goroutine
@@ -1174,7 +1179,8 @@ type vRealEnv struct {
 }
 
 func (e *vRealEnv) target(q vRealReq) (network, addr string, ok bool) {
-	key := map[string]string{"accept": "echo", "refuse": "refuse", "backlog": "backlog", "reset": "reset"}[q.class]
+	key := map[string]string{"accept": "echo", "refuse": "refuse", "backlog": "backlog", "reset": "reset",
+		"laddr-ok": "echo", "bind-inuse": "echo", "bind-notlocal": "echo", "family-raddr": "echo", "family-laddr": "echo"}[q.class]
 	switch q.net {
 	case "tcp4":
 		p, ok := e.addrs[key+"4"]
@@ -1187,7 +1193,7 @@ func (e *vRealEnv) target(q vRealReq) (network, addr string, ok bool) {
 		return "tcp", "localhost:" + p, ok
 	case "unix":
 		p, ok := e.addrs["unix_"+strings.TrimPrefix(q.class, "unix-")]
-		if q.class == "unix-ok" {
+		if q.class == "unix-ok" || q.class == "unix-laddr-ok" || q.class == "unix-bind-exists" {
 			p, ok = e.addrs["unix_echo"]
 		}
 		return "unix", p, ok
@@ -1225,6 +1231,55 @@ func vConnParts(c Connection) (*connection, bool) {
 	return nil, false
 }
 
+// dialLocal: a dial through the public DialTCP / DialUnix WITH a local address (DialConnection never passes one).
+// The class says what is wrong with it; everything that is wrong here is detected by netFD.dial before connect(2):
+// `laddr.sockaddr(family)`, `syscall.Bind`, `raddr.sockaddr(family)`.
+func (e *vRealEnv) dialLocal(q vRealReq, network, addr string, tag uint32) (Connection, error) {
+	if network == "unix" {
+		raddr := &UnixAddr{UnixAddr: net.UnixAddr{Name: addr, Net: "unix"}}
+		local := addr // unix-bind-exists: the path of the listening socket itself
+		if q.class == "unix-laddr-ok" {
+			local = fmt.Sprintf("%s/lc-%08x", filepath.Dir(addr), tag)
+			defer os.Remove(local)
+		}
+		uc, err := DialUnix("unix", &UnixAddr{UnixAddr: net.UnixAddr{Name: local, Net: "unix"}}, raddr)
+		if uc == nil {
+			return nil, err
+		}
+		return uc, err
+	}
+	host, port, _ := net.SplitHostPort(addr)
+	pn, _ := strconv.Atoi(port)
+	v6 := strings.Contains(host, ":")
+	rip := net.ParseIP(host)
+	loop, foreign := net.IPv4(127, 0, 0, 1), net.IPv4(192, 0, 2, 1) // TEST-NET-1: on no interface
+	netw := "tcp"
+	if v6 {
+		loop, foreign = net.IPv6loopback, net.ParseIP("2001:db8::1") // documentation prefix
+		netw = "tcp6"
+	}
+	laddr := &TCPAddr{TCPAddr: net.TCPAddr{IP: loop}}
+	raddr := &TCPAddr{TCPAddr: net.TCPAddr{IP: rip, Port: pn}}
+	switch q.class {
+	case "laddr-ok":
+	case "bind-inuse":
+		laddr.Port = pn // the listener's own port
+	case "bind-notlocal":
+		laddr.IP = foreign
+	case "family-raddr":
+		netw, laddr, raddr = "tcp4", nil, &TCPAddr{TCPAddr: net.TCPAddr{IP: net.IPv6loopback, Port: pn}}
+	case "family-laddr":
+		netw, laddr = "tcp4", &TCPAddr{TCPAddr: net.TCPAddr{IP: net.IPv6loopback}}
+	}
+	ctx, cancel := context.WithTimeout(context.Background(), time.Duration(q.timeoutUs)*time.Microsecond)
+	defer cancel()
+	tc, err := DialTCP(ctx, netw, laddr, raddr)
+	if tc == nil {
+		return nil, err
+	}
+	return tc, err
+}
+
 func (e *vRealEnv) oneDial(q vRealReq, network, addr string, tag uint32) (o vDialObs) {
 	defer func() {
 		if r := recover(); r != nil {
@@ -1250,6 +1305,8 @@ func (e *vRealEnv) oneDial(q vRealReq, network, addr string, tag uint32) (o vDia
 		if tc != nil {
 			c = tc
 		}
+	} else if q.api == "laddr" {
+		c, err = e.dialLocal(q, network, addr, tag)
 	} else {
 		c, err = DialConnection(network, addr, time.Duration(q.timeoutUs)*time.Microsecond)
 	}
@@ -1277,7 +1334,7 @@ func (e *vRealEnv) oneDial(q vRealReq, network, addr string, tag uint32) (o vDia
 				o.creg = true
 			}
 		}
-		if q.class == "accept" || q.class == "unix-ok" {
+		if q.class == "accept" || q.class == "unix-ok" || q.class == "laddr-ok" || q.class == "unix-laddr-ok" {
 			// usable in both directions: echo round trip
 			msg := []byte(fmt.Sprintf("verif-c14-%08x--", tag))
 			o.usable = "0"
@@ -1454,7 +1511,20 @@ func vRealPlan(r *rand.Rand, tier string) []vRealReq {
 		plan = append(plan, vRealReq{"refuse", n, "dial", 500000, 64, 1})
 		plan = append(plan, vRealReq{"backlog", n, "dial", 30000 + r.Intn(20000), 64, 1})
 		plan = append(plan, vRealReq{"reset", n, "dial", 500000, 64, 1})
+		// a local address is given: free, taken, not on this host
+		plan = append(plan, vRealReq{"laddr-ok", n, "laddr", 2000000, 1, 3})
+		plan = append(plan, vRealReq{"bind-inuse", n, "laddr", 2000000, 1, 3})
+		plan = append(plan, vRealReq{"bind-notlocal", n, "laddr", 2000000, 1, 3})
+		plan = append(plan, vRealReq{"bind-inuse", n, "laddr", 2000000, 16, 1})
+		plan = append(plan, vRealReq{"bind-notlocal", n, "laddr", 2000000, 8, 1})
 	}
+	// network / address family mismatch (the network says IPv4, an address is IPv6)
+	plan = append(plan, vRealReq{"family-raddr", "tcp4", "laddr", 2000000, 1, 3})
+	plan = append(plan, vRealReq{"family-laddr", "tcp4", "laddr", 2000000, 1, 3})
+	plan = append(plan, vRealReq{"family-raddr", "tcp4", "laddr", 2000000, 8, 1})
+	plan = append(plan, vRealReq{"unix-laddr-ok", "unix", "laddr", 100000, 1, 2})
+	plan = append(plan, vRealReq{"unix-bind-exists", "unix", "laddr", 100000, 1, 3})
+	plan = append(plan, vRealReq{"unix-bind-exists", "unix", "laddr", 100000, 8, 1})
 	plan = append(plan, vRealReq{"accept", "host", "dial", 2000000, 1, 3})
 	plan = append(plan, vRealReq{"accept", "tcp4", "dial", 0, 1, 2}) // no deadline
 	for _, c := range []string{"unix-ok", "unix-missing", "unix-refuse", "unix-backlog"} {
